@@ -51,12 +51,12 @@ Apply(h, kk, o) ==
     [] o.op \in {"chvers", "chsuites", "chcomp"} -> <<"MOD">> \o SubSeq(h, 2, Len(h))
     [] o.op = "close"  -> SubSeq(h, 1, kk - 1) \o <<"EOF">>
     [] o.op = "ccs"    -> SubSeq(h, 1, kk - 1) \o <<"X:CCS">> \o SubSeq(h, kk, Len(h))
-    [] o.op = "appdata"    -> SubSeq(h, 1, kk - 1) \o <<"X:APP">> \o SubSeq(h, kk, Len(h))
+    [] o.op \in {"appdata", "appdata_empty"} -> SubSeq(h, 1, kk - 1) \o <<"X:APP">> \o SubSeq(h, kk, Len(h))
     [] o.op = "fatalalert" -> SubSeq(h, 1, kk - 1) \o <<"X:ALERT">>
 
 Ops(h) == {[op |-> "none"], [op |-> "refrag"]} \cup
           {[op |-> "warnalert", k |-> i] : i \in 1..Len(h)} \cup
-          {[op |-> o, k |-> i] : o \in {"drop", "dup", "close", "ccs", "appdata", "fatalalert"}, i \in 1..Len(h)} \cup
+          {[op |-> o, k |-> i] : o \in {"drop", "dup", "close", "ccs", "appdata", "appdata_empty", "fatalalert"}, i \in 1..Len(h)} \cup
           {[op |-> "close", k |-> Len(h) + 1]} \cup
           {[op |-> "swap", k |-> i] : i \in 1..(Len(h) - 1)} \cup
           {[op |-> "inject", k |-> i, t |-> t] : i \in 1..(Len(h) + 1), t \in InjTypes} \cup
